@@ -621,6 +621,27 @@ fn deep_input_case(idx: u64, rec: &mut Rec) {
     }
 }
 
+/// The heads a server actually sends first, offered as a window that grows byte by byte to the call that waits for
+/// a 100 and to the one that waits for a response: every prefix of the canonical spellings is met, not just the
+/// ones a random cut happens to land on.
+fn interim_prefix_case(idx: u64, rec: &mut Rec) {
+    const HEADS: [&[u8]; 8] = [
+        b"HTTP/1.1 100 Continue\r\n\r\n",
+        b"HTTP/1.1 100 Continue\r\n\r\nHTTP/1.1 200 OK\r\nContent-Length: 0\r\n\r\n",
+        b"HTTP/1.0 100 Continue\r\n\r\n",
+        b"HTTP/1.1 100 \r\n\r\n",
+        b"HTTP/1.1 100 Continue\r\nX: y\r\n\r\n",
+        b"HTTP/1.1 417 Expectation Failed\r\nConnection: close\r\nContent-Length: 0\r\n\r\n",
+        b"HTTP/1.1 200 OK\r\n\r\n",
+        b"HTTP/1.1 302 Found\r\nLocation: /x\r\nContent-Length: 0\r\n\r\n",
+    ];
+    let h = HEADS[(idx % 8) as usize];
+    offer(Target::Await100, h, true, rec);
+    offer(Target::Response, h, true, rec);
+    offer(Target::Await100, h, false, rec);
+    rec.cov("interim-prefixes");
+}
+
 fn redirect_calls_case(idx: u64, rec: &mut Rec) {
     use ureq_proto::client::flow::RedirectAuthHeaders;
     let status = [301u16, 302, 303, 307, 308][(idx % 5) as usize];
@@ -849,6 +870,7 @@ impl Property for P {
             Workload::new("byte-sweeps", 10 * 256, true, "every byte value at 10 head positions (incl. the first digit of the status code and codes below 100) and 2 chunk positions"),
             Workload::new("chunk-size-lines", 24 * 8 * 2, true, "chunk size lines of every length 1..=24 x 8 digit patterns x extension"),
             Workload::new("mutations", tier.pick(30_000, 6_000_000), false, "mutated valid exchanges under random schedules"),
+            Workload::new("interim-prefixes", 8, true, "eight heads a server sends first (100 Continue in four spellings, with what follows, refusals), every prefix, to try_read_100 and try_response"),
             Workload::new("deep-input", 6 * 4 * 2, true, "300..40000 copies of one small unit (interim responses, empty lines, one-byte chunks, trailer lines) in a single buffer x 2 routes; each cell in a child process, judged by how the child ended"),
             Workload::new("redirect-calls", 480, true, "5 statuses x 8 request shapes (two with Expect) x 6 Locations x 2 policies: every call the Redirect state offers, a declined or failed follow asked again"),
             Workload::new("five-close-conditions", 64, true, "HTTP/1.0 + client close + refused 100 + server close + close-delimited"),
@@ -857,6 +879,7 @@ impl Property for P {
     fn run_case(&self, wl: &str, idx: u64, seed: u64, rec: &mut Rec) {
         match wl {
             "deep-input" => deep_input_case(idx, rec),
+            "interim-prefixes" => interim_prefix_case(idx, rec),
             "deep-input-inner" => deep_input_inner(idx, rec),
             "alphabet-5" => alphabet_case(idx, 5, rec),
             "alphabet-6" => alphabet_case(idx, 6, rec),
@@ -906,6 +929,7 @@ impl Property for P {
             v.push((format!("deep-input/{}/returned", u), 8));
         }
         v.push(("redirect-calls/request-with-expect".to_string(), 50));
+        v.push(("interim-prefixes".to_string(), 8));
         for m in ["field-value-games", "flood-interim", "flood-head", "flood-field", "bit-flip", "deletion", "duplication", "splice", "oversize-number", "stray-crlf", "many-fields", "truncation", "huge-name", "huge-value", "chunk-line-games", "conflicting-fields"] {
             v.push((format!("mutation/{}", m), 100));
         }
